@@ -505,8 +505,7 @@ func (p *PQL) Execute() {
 		case ruleAction46:
 			p.addVal(text)
 		case ruleAction47:
-			s, _ := strconv.Unquote(text)
-			p.addVal(s)
+			p.addQuotedVal(text)
 		case ruleAction48:
 			p.addVal(text)
 		case ruleAction49:
@@ -3103,7 +3102,7 @@ func (p *PQL) Init() {
 		nil,
 		/* 80 Action46 <- <{ p.addVal(text) }> */
 		nil,
-		/* 81 Action47 <- <{ s, _ := strconv.Unquote(text); p.addVal(s) }> */
+		/* 81 Action47 <- <{ p.addQuotedVal(text) }> */
 		nil,
 		/* 82 Action48 <- <{ p.addVal(text) }> */
 		nil,
